@@ -58,7 +58,7 @@ Lemma fill_length {A} (l r : list A) dim : fill l dim = Some r -> length r = dim
 Proof.
   unfold fill. pose proof (firstn_le_length dim l) as H1. pose proof (firstn_length dim l) as H2.
   destruct (firstn dim l) as [|h t] eqn:E; [discriminate|]. intros [= <-].
-  rewrite app_length, repeat_length. simpl in *. lia.
+  simpl in *. rewrite app_length, repeat_length. lia.
 Qed.
 Lemma fill_id {A} (l : list A) dim : length l = dim -> 0 < dim -> fill l dim = Some l.
 Proof.
@@ -68,16 +68,22 @@ Qed.
 
 Lemma in_firstn {A} (x : A) n l : In x (firstn n l) -> In x l.
 Proof. revert l; induction n; intros [|a l] H; simpl in *; try tauto. destruct H; auto. Qed.
+Lemma last_cons {A} (t : list A) (a h : A) : last (a :: t) h = last t a.
+Proof.
+  revert a h. induction t as [|b t IH]; intros a h; [reflexivity|].
+  change (last (a :: b :: t) h) with (last (b :: t) h). now rewrite !IH.
+Qed.
 Lemma last_in {A} (t : list A) (h : A) : In (last t h) (h :: t).
 Proof.
-  revert h. induction t as [|a t IH]; intros h; simpl; auto.
-  destruct t as [|b t']; [right; left; auto|]. right. apply (IH a).
+  revert h. induction t as [|a t IH]; intros h; [left; reflexivity|].
+  rewrite last_cons. right. apply IH.
 Qed.
 Lemma fill_Forall {A} (P : A -> Prop) (l r : list A) dim : Forall P l -> fill l dim = Some r -> Forall P r.
 Proof.
   intros HF. unfold fill. assert (Hf : Forall P (firstn dim l)).
   { rewrite Forall_forall in *. intros x Hx. apply HF. eapply in_firstn; eauto. }
   destruct (firstn dim l) as [|h t] eqn:E; [discriminate|]. intros [= <-].
+  change (Forall P ((h :: t) ++ repeat (last t h) (dim - length (h :: t)))).
   apply Forall_app. split; auto. apply Forall_forall. intros x Hx. apply repeat_spec in Hx. subst x.
   rewrite Forall_forall in Hf. apply Hf. apply last_in.
 Qed.
@@ -104,8 +110,8 @@ Record rm := mkRm {
 
 Definition rm_reset (m : Model) (n : nat) (st : rm) (s : seedarg) : rm :=
   let k := store_seed s (rm_seed st) in
-  let '(e, ent) := seed_of k (rm_ent st) in
-  mkRm m k e n (modes_of e m n) ent (S (rm_resets st)) (mode_draws m).
+  let se := seed_of k (rm_ent st) in
+  mkRm m k (fst se) n (modes_of (fst se) m n) (snd se) (S (rm_resets st)) (mode_draws m).
 Definition rm_reset_seed st s := rm_reset (rm_model st) (rm_mode_no st) st s.
 Definition rm_set_seed st s := if same s (rm_seed st) then st else rm_reset_seed st s.
 
@@ -230,9 +236,9 @@ Definition srf_step (st : srf) (o : srf_op) : srf * rm_out :=
   | FMod f => (mkSrf (f (f_model st)) (f_gen st) (f_store st), ONothing _ _)
   | FCall s shape store =>
       let g1 := fst (rm_step (f_gen st) (RUpdate _ (Some (f_model st)) s)) in
-      let '(g2, out) := rm_step g1 (RCall _ shape true) in
-      (mkSrf (f_model st) g2 (match store with Some n => store_set (f_store st) n out | None => f_store st end), out)
-  | FGen g => let '(g', out) := rm_step (f_gen st) g in (mkSrf (f_model st) g' (f_store st), out)
+      let r := rm_step g1 (RCall _ shape true) in
+      (mkSrf (f_model st) (fst r) (match store with Some n => store_set (f_store st) n (snd r) | None => f_store st end), snd r)
+  | FGen g => let r := rm_step (f_gen st) g in (mkSrf (f_model st) (fst r) (f_store st), snd r)
   end.
 Definition srf_init (m : Model) (n : nat) (s : seedarg) : srf := mkSrf m (rm_init m n s) [].
 Definition srf_run (st : srf) (ops : list srf_op) : srf := fold_left (fun s o => fst (srf_step s o)) ops st.
@@ -244,11 +250,8 @@ Lemma srf_step_gen_fresh st o : rm_fresh Model Modes modes_of (f_gen st) ->
 Proof.
   intros H. destruct o as [f|s shape store|g]; simpl; auto.
   - pose proof (rm_step_fresh Model meq nugget_pos Modes modes_of mode_draws same _ (RUpdate _ (Some (f_model st)) s) H) as H1.
-    pose proof (rm_step_fresh Model meq nugget_pos Modes modes_of mode_draws same _ (RCall _ shape true) H1) as H2.
-    destruct (rm_step (fst (rm_step (f_gen st) (RUpdate _ (Some (f_model st)) s))) (RCall _ shape true)) eqn:E.
-    simpl in *. exact H2.
-  - pose proof (rm_step_fresh Model meq nugget_pos Modes modes_of mode_draws same _ g H) as H1.
-    destruct (rm_step (f_gen st) g). exact H1.
+    exact (rm_step_fresh Model meq nugget_pos Modes modes_of mode_draws same _ (RCall _ shape true) H1).
+  - exact (rm_step_fresh Model meq nugget_pos Modes modes_of mode_draws same _ g H).
 Qed.
 
 Lemma srf_run_gen_fresh st ops : rm_fresh Model Modes modes_of (f_gen st) ->
@@ -272,12 +275,17 @@ Proof.
   intros st.
   assert (Hf : rm_fresh Model Modes modes_of (f_gen st)).
   { apply srf_run_gen_fresh. simpl. apply rm_reset_fresh. }
-  pose proof (rm_step_fresh Model meq nugget_pos Modes modes_of mode_draws same _ (RUpdate _ (Some (f_model st)) s) Hf) as H1.
-  pose proof (rm_update_tracks Model meq nugget_pos Modes modes_of mode_draws same (f_gen st) (f_model st) s) as Ht.
-  simpl in Ht. simpl srf_step.
-  set (g1 := fst (rm_step (f_gen st) (RUpdate _ (Some (f_model st)) s))) in *.
-  destruct H1 as [Hm Ha]. simpl rm_step.
-  destruct (true && nugget_pos (rm_model _ _ g1)); simpl;
+  set (g1 := fst (rm_step (f_gen st) (RUpdate _ (Some (f_model st)) s))).
+  assert (H1 : rm_fresh Model Modes modes_of g1) by (apply rm_step_fresh; exact Hf).
+  assert (Ht : rm_model _ _ g1 = f_model st
+               \/ (meq (rm_model _ _ (f_gen st)) (f_model st) = true /\ rm_model _ _ g1 = rm_model _ _ (f_gen st)))
+    by (apply rm_update_tracks).
+  assert (Hs : srf_step st (FCall s shape store)
+          = (mkSrf (f_model st) (fst (rm_step g1 (RCall _ shape true)))
+               (match store with Some n => store_set (f_store st) n (snd (rm_step g1 (RCall _ shape true))) | None => f_store st end),
+             snd (rm_step g1 (RCall _ shape true)))) by reflexivity.
+  rewrite Hs. clear Hs. clearbody g1. destruct H1 as [Hm Ha]. simpl.
+  destruct (nugget_pos (rm_model _ _ g1)); simpl;
     (eexists; eexists; eexists; eexists; split; [reflexivity|]; split; [eexists; split; [exact Hm|exact Ha]|]; split; [|reflexivity]);
     (destruct Ht as [Ht|[Ht1 Ht2]]; [left; exact Ht|right; rewrite Ht2; exact Ht1]).
 Qed.
@@ -301,13 +309,10 @@ Theorem srf_isclose_stale m1 m2 n s : meq m1 m2 = true -> m1 <> m2 ->
       snd (srf_step st (FCall s' shape store)) = OField _ _ md m1 k noise /\ f_model st = m2.
 Proof.
   intros He Hne. exists [FMod (fun _ => m2)]. simpl. intros s' shape store.
-  assert (Hm : rm_model _ _ (rm_init m1 n s) = m1).
-  { unfold rm_init, rm_reset. simpl. destruct (seed_of (store_seed s KNone) 0). reflexivity. }
-  rewrite Hm, He. simpl.
+  rewrite He. simpl.
   assert (Hm' : rm_model _ _ (if is_nan s' then rm_init m1 n s else rm_set_seed Model Modes modes_of mode_draws same (rm_init m1 n s) s') = m1).
-  { destruct (is_nan s'); auto. unfold rm_set_seed. destruct (same s' _); auto.
-    unfold rm_reset_seed, rm_reset. destruct (seed_of _ _). simpl. exact Hm. }
-  destruct (is_nan s'); simpl in *; rewrite Hm'; destruct (nugget_pos m1); simpl; eauto.
+  { destruct (is_nan s'); auto. unfold rm_set_seed. destruct (same s' _); auto. }
+  destruct (is_nan s'); simpl in *; try rewrite Hm'; destruct (nugget_pos m1); simpl; eauto.
 Qed.
 
 (* ---- the store name never influences what is generated *)
@@ -322,8 +327,6 @@ Lemma srf_step_drop st st' o : f_model st = f_model st' -> f_gen st = f_gen st' 
   /\ f_gen (fst (srf_step st o)) = f_gen (fst (srf_step st' (drop_store o))).
 Proof.
   intros Hm Hg. destruct o as [f|s sh store|g]; simpl; rewrite <- ?Hm, <- ?Hg; auto.
-  - destruct (rm_step (fst (rm_step (f_gen st) (RUpdate _ (Some (f_model st)) s))) (RCall _ sh true)); simpl; auto.
-  - destruct (rm_step (f_gen st) g); simpl; auto.
 Qed.
 
 Theorem srf_store_name_irrelevant st ops1 ops2 :
@@ -343,7 +346,6 @@ Lemma srf_store_get st s shape n (Hn : name_eqb n n = true) :
   | [] => False
   end.
 Proof.
-  simpl. destruct (rm_step (fst (rm_step (f_gen st) (RUpdate _ (Some (f_model st)) s))) (RCall _ shape true)).
   simpl. auto.
 Qed.
 End SRF.
@@ -375,7 +377,7 @@ Lemma strip_reset m n st s :
   = rm_reset Model Modes modes_of mode_draws m n (strip_rm st) (strip_arg s).
 Proof.
   unfold rm_reset, strip_rm. simpl. rewrite <- store_seed_strip.
-  rewrite seed_of_strip. destruct (seed_of (store_seed s (rm_seed _ _ st)) (rm_ent _ _ st)). reflexivity.
+  rewrite seed_of_strip. reflexivity.
 Qed.
 Lemma is_nan_strip s : is_nan (strip_arg s) = is_nan s.
 Proof. destruct s; reflexivity. Qed.
@@ -464,9 +466,9 @@ Record fo := mkFo {
 
 Definition fo_reset (m : Model) (st : fo) (s : seedarg) : fo :=
   let k := store_seed s (fo_seed st) in
-  let '(e, ent) := seed_of k (fo_ent st) in
-  mkFo m k e (fo_period st) (fo_mode_no st) (fo_delta st) (fo_grid st)
-       (zs_of e (prodn (fo_mode_no st))) (sf_of m (fo_grid st) (fo_delta st)) ent (S (fo_resets st)) 2.
+  let se := seed_of k (fo_ent st) in
+  mkFo m k (fst se) (fo_period st) (fo_mode_no st) (fo_delta st) (fo_grid st)
+       (zs_of (fst se) (prodn (fo_mode_no st))) (sf_of m (fo_grid st) (fo_delta st)) (snd se) (S (fo_resets st)) 2.
 Definition fo_set_seed st s := if same s (fo_seed st) then st else fo_reset (fo_model st) st s.
 Definition fo_set_modes (st : fo) (n : list nat) (dim : nat) : fo :=
   let g := grid_of n (fo_delta st) dim in
